@@ -517,6 +517,50 @@ def r7_codec_stateless(ctx):
                 if not bad:
                     ctx.ok(construct, 'codec function keeps no state '
                            'outside the packet object', where(g))
+    # class attributes holding a mutable display that instances mutate in
+    # place (without rebinding them per instance) are shared by every packet
+    # of every client
+    for cname, _ in CODEC:
+        cls = m.cls(cname)
+        for st_ in cls.node.body:
+            if not isinstance(st_, (ast.Assign, ast.AnnAssign)) or \
+                    st_.value is None:
+                continue
+            if not isinstance(st_.value, (ast.List, ast.Dict, ast.Set)):
+                continue
+            tg = st_.targets if isinstance(st_, ast.Assign) else [st_.target]
+            for t in tg:
+                if not isinstance(t, ast.Name):
+                    continue
+                nm = t.id
+                rebound = any(
+                    isinstance(x, ast.Assign) and any(
+                        U(tt) == 'self.' + nm for tt in x.targets)
+                    for g in cls.methods.values() if g.name == '__init__'
+                    for x in walk_own(g.node))
+                mutated = [x for g in cls.methods.values()
+                           for x in walk_own(g.node)
+                           if (isinstance(x, ast.Call) and
+                               isinstance(x.func, ast.Attribute) and
+                               U(x.func.value) == 'self.' + nm and
+                               x.func.attr in ('append', 'clear', 'extend',
+                                               'pop', 'insert', 'update',
+                                               'add', 'remove',
+                                               'setdefault')) or
+                           (isinstance(x, ast.Subscript) and
+                            isinstance(x.ctx, (ast.Store, ast.Del)) and
+                            U(x.value) == 'self.' + nm)]
+                ctx.check(rebound or not mutated, cname, 'class attribute '
+                          '%s is not a mutable object shared by all packets'
+                          % nm, key='class-level-state ' + nm,
+                          reason='%s.%s is a class-level %s that instances '
+                          'mutate in place (%s) without binding their own: '
+                          'the partially received packets of all clients '
+                          'share it, one client\'s attachment completes or '
+                          'corrupts another client\'s packet' % (
+                              cname, nm, type(st_.value).__name__.lower(),
+                              U(mutated[0])[:40] if mutated else ''),
+                          where='%s:%d' % (cls.module.relpath, st_.lineno))
     if n < 8:
         raise AnalysisError('C12.R7: only %d codec functions found' % n)
 
